@@ -277,44 +277,104 @@ func c11flatMapClosure(p *core.Prog, fm, cl, doEffect *ssa.Function) (bool, stri
 	return true, "eval(receiver) → fn(result) → eval(fn's result), each exactly once, value returned"
 }
 
-func c11subscribe(c *core.Ctx, ds, doEffect *ssa.Function) {
-	p := c.P
-	// closures: doSub (calls OnNext) and doOb (evaluates)
-	var doSub, doOb *ssa.Function
-	for _, a := range ds.AnonFuncs {
-		ev, on := false, false
-		core.Instrs(a, func(ins ssa.Instruction) {
-			if call, ok := ins.(*ssa.Call); ok {
-				if core.Callee(&call.Call) == doEffect {
-					ev = true
-				}
-				if core.FieldKey(call.Call.Value) == "Subscription.OnNext" {
-					on = true
+// c11clo is a closure found from some root function: where it is created and the helper calls leading there.
+type c11clo struct {
+	mc    *ssa.MakeClosure
+	stack []*ssa.Call
+}
+
+// site: the value that denotes the closure in the root function (the MakeClosure, or the call of the
+// factory helper that returns it).
+func (k *c11clo) site() ssa.Value {
+	if len(k.stack) == 0 {
+		return k.mc
+	}
+	return k.stack[0]
+}
+
+// outer expresses a value read inside the closure in the frame of the root function where possible.
+func (k *c11clo) outer(v ssa.Value) ssa.Value {
+	v = core.Resolve(v)
+	fn := k.mc.Fn.(*ssa.Function)
+	var fv *ssa.FreeVar
+	switch x := v.(type) {
+	case *ssa.UnOp:
+		if f, ok := x.X.(*ssa.FreeVar); ok && x.Op == token.MUL {
+			fv = f
+		}
+	case *ssa.FreeVar:
+		fv = x
+	}
+	if fv == nil {
+		return v
+	}
+	for i, f := range fn.FreeVars {
+		if f == fv && i < len(k.mc.Bindings) {
+			b := k.mc.Bindings[i]
+			if _, isLoad := v.(*ssa.UnOp); isLoad {
+				if a, isA := b.(*ssa.Alloc); isA {
+					if st := core.Stores(a); len(st) == 1 {
+						b = st[0].Val
+					} else {
+						return a
+					}
 				}
 			}
-		})
-		if ev {
-			doOb = a
-		} else if on {
-			doSub = a
+			r, _ := core.Up(b, k.stack)
+			return r
 		}
 	}
-	if doSub == nil || doOb == nil {
+	return v
+}
+
+func c11findClo(p *core.Prog, root *ssa.Function, pred func(*ssa.Function) bool) *c11clo {
+	var out *c11clo
+	for _, f := range core.DeepFind(p, root, func(ins ssa.Instruction) bool {
+		mc, ok := ins.(*ssa.MakeClosure)
+		return ok && pred(mc.Fn.(*ssa.Function))
+	}) {
+		out = &c11clo{f.Ins.(*ssa.MakeClosure), f.Stack}
+	}
+	return out
+}
+
+func c11subscribe(c *core.Ctx, ds, doEffect *ssa.Function) {
+	p := c.P
+	// closures: doSub (calls OnNext) and doOb (evaluates); they may be built by factory helpers
+	evaluates := func(a *ssa.Function) bool {
+		ev := false
+		core.Instrs(a, func(ins ssa.Instruction) {
+			if call, ok := ins.(*ssa.Call); ok && core.Callee(&call.Call) == doEffect {
+				ev = true
+			}
+		})
+		return ev
+	}
+	delivers := func(a *ssa.Function) bool {
+		on := false
+		core.Instrs(a, func(ins ssa.Instruction) {
+			if call, ok := ins.(*ssa.Call); ok && core.FieldKey(call.Call.Value) == "Subscription.OnNext" {
+				on = true
+			}
+		})
+		return on && !evaluates(a)
+	}
+	ob := c11findClo(p, ds, evaluates)
+	if ob == nil {
 		c.Unknown("R3", "doSubscribe/closures", p.Pos(ds.Pos()), "expected one closure evaluating the effect and one calling OnNext")
 		return
 	}
-	mcOf := func(parent, fn *ssa.Function) *ssa.MakeClosure {
-		var out *ssa.MakeClosure
-		core.Instrs(parent, func(ins ssa.Instruction) {
-			if mc, ok := ins.(*ssa.MakeClosure); ok && mc.Fn == ssa.Value(fn) {
-				out = mc
-			}
-		})
-		return out
+	doOb := ob.mc.Fn.(*ssa.Function)
+	obParent := ob.mc.Parent()
+	sub := c11findClo(p, obParent, delivers)
+	if sub == nil {
+		c.Unknown("R3", "doSubscribe/closures", p.Pos(ds.Pos()), "expected one closure evaluating the effect and one calling OnNext")
+		return
 	}
-	// routing count: in function `in`, the closure value `isClosure` is either called directly or posted to handler named h
-	route := func(in *ssa.Function, isClosure func(ssa.Value) bool, start *ssa.BasicBlock, after ssa.Instruction) (int, int, string) {
-		chosenBy := ""
+	doSub := sub.mc.Fn.(*ssa.Function)
+	// routing count: in function `in`, the closure value `isClosure` is either called directly or posted to a handler
+	route := func(in *ssa.Function, isClosure func(ssa.Value) bool, start *ssa.BasicBlock, after ssa.Instruction) (int, int, ssa.Value) {
+		var chosenBy ssa.Value
 		min, max := core.PathCountFrom(start, after, func(ins ssa.Instruction) int {
 			switch x := ins.(type) {
 			case *ssa.Call:
@@ -328,7 +388,7 @@ func c11subscribe(c *core.Ctx, ds, doEffect *ssa.Function) {
 							// the handler must be known non-nil here
 							for _, m := range core.EdgeCmps(ins.Block()) {
 								if m.Op == token.NEQ && core.IsNilConst(m.Y) && core.Path(m.X) == core.Path(x.Call.Args[0]) {
-									chosenBy = core.Path(m.X)
+									chosenBy = x.Call.Args[0]
 								}
 							}
 							return 1
@@ -336,7 +396,7 @@ func c11subscribe(c *core.Ctx, ds, doEffect *ssa.Function) {
 						// a helper that itself does "Post to the handler if non-nil, else call" with its own parameters
 						if g != nil && p.InRepo(g) {
 							if hi, ok := c11postOrRun(p, g, ai); ok && hi < len(x.Call.Args) {
-								chosenBy = core.Path(x.Call.Args[hi])
+								chosenBy = x.Call.Args[hi]
 								return 1
 							}
 						}
@@ -359,28 +419,32 @@ func c11subscribe(c *core.Ctx, ds, doEffect *ssa.Function) {
 		return min, max, chosenBy
 	}
 	// (a) everything under OnNext != nil, one of {obOn.Post(doOb), doOb()}
-	mcOb := mcOf(ds, doOb)
-	if mcOb == nil {
+	obSite, isI := ob.site().(ssa.Instruction)
+	if !isI {
 		c.Unknown("R3", "doSubscribe/observe-route", p.Pos(ds.Pos()), "closure creation not found")
 		return
 	}
 	guarded := false
-	for _, m := range core.EdgeCmps(mcOb.Block()) {
+	for _, m := range core.EdgeCmps(obSite.Block()) {
 		if m.Op == token.NEQ && core.IsNilConst(m.Y) && core.FieldKey(m.X) == "Subscription.OnNext" {
 			guarded = true
 		}
 	}
-	min, max, by := route(ds, func(v ssa.Value) bool { return v == ssa.Value(mcOb) }, mcOb.Block(), mcOb)
+	min, max, byV := route(ds, func(v ssa.Value) bool { return core.Resolve(v) == ob.site() }, obSite.Block(), obSite)
+	by := ""
+	if byV != nil {
+		by = core.Path(byV)
+	}
 	// which handler is which: the field written by ObserveOn (resp. SubscribeOn) and the parameter of the
 	// subscribe routine that receives it at the call sites
 	obNames, subNames := c11handlerNames(p, ds, "ObserveOn"), c11handlerNames(p, ds, "SubscribeOn")
 	if len(obNames) == 0 || len(subNames) == 0 {
 		c.Unknown("R3", "doSubscribe/handler-roles", p.Pos(ds.Pos()), "cannot tell which handler of the subscribe routine was set by ObserveOn and which by SubscribeOn")
 	} else if by != "" && !obNames[by] {
-		c.Fail("R3", "doSubscribe/handler-roles", p.InstrPos(mcOb), "the evaluation of the effect is routed to handler "+by+", which is not the one set by ObserveOn: the effect runs on the wrong goroutine")
+		c.Fail("R3", "doSubscribe/handler-roles", p.InstrPos(obSite), "the evaluation of the effect is routed to handler "+by+", which is not the one set by ObserveOn: the effect runs on the wrong goroutine")
 		by = ""
 	}
-	c.Check(guarded && min == 1 && max == 1 && by != "", "R3", "doSubscribe/observe-route", p.InstrPos(mcOb), "under OnNext != nil exactly one of {Post to "+by+", direct call}", fmt.Sprintf("observe routing runs the evaluation %d..%d times per Subscribe (must be 1), guardedByOnNext=%v, handler nil-check=%q", min, max, guarded, by))
+	c.Check(guarded && min == 1 && max == 1 && by != "", "R3", "doSubscribe/observe-route", p.InstrPos(obSite), "under OnNext != nil exactly one of {Post to "+by+", direct call}", fmt.Sprintf("observe routing runs the evaluation %d..%d times per Subscribe (must be 1), guardedByOnNext=%v, handler nil-check=%q", min, max, guarded, by))
 	// without OnNext nothing runs: no call outside the guarded region
 	stray := ""
 	core.Instrs(ds, func(ins ssa.Instruction) {
@@ -388,7 +452,7 @@ func c11subscribe(c *core.Ctx, ds, doEffect *ssa.Function) {
 			if _, isB := ci.Common().Value.(*ssa.Builtin); isB {
 				return
 			}
-			if !(mcOb.Block() == ins.Block() || mcOb.Block().Dominates(ins.Block())) {
+			if !(obSite.Block() == ins.Block() || obSite.Block().Dominates(ins.Block())) {
 				stray = p.InstrPos(ins)
 			}
 		}
@@ -400,17 +464,9 @@ func c11subscribe(c *core.Ctx, ds, doEffect *ssa.Function) {
 		if mc, ok := v.(*ssa.MakeClosure); ok {
 			return mc.Fn == ssa.Value(doSub)
 		}
-		// captured cell holding the OnNext closure: resolve the free variable through the creation of doOb
-		if u, ok := v.(*ssa.UnOp); ok && u.Op == token.MUL {
-			if fv, ok := u.X.(*ssa.FreeVar); ok {
-				if b := capturedBinding(ds, doOb, fv.Name()); b != nil {
-					if mc, ok := b.(*ssa.MakeClosure); ok {
-						return mc.Fn == ssa.Value(doSub)
-					}
-				}
-			}
-		}
-		return false
+		// the delivery closure as seen from the creator of doOb
+		obInParent := &c11clo{ob.mc, nil}
+		return core.Resolve(obInParent.outer(v)) == sub.site()
 	}
 	emin, emax := core.PathCount(doOb, func(ins ssa.Instruction) int {
 		if call, ok := ins.(*ssa.Call); ok && core.Callee(&call.Call) == doEffect {
@@ -418,19 +474,26 @@ func c11subscribe(c *core.Ctx, ds, doEffect *ssa.Function) {
 		}
 		return 0
 	}, nil)
-	smin, smax, sby := route(doOb, isDoSub, doOb.Blocks[0], nil)
+	smin, smax, sbyV := route(doOb, isDoSub, doOb.Blocks[0], nil)
+	sby := ""
+	if sbyV != nil {
+		sby = core.Path(ob.outer(sbyV)) // the handler expressed in the subscribe routine's frame
+	}
 	if sby != "" && len(subNames) > 0 && !subNames[sby] {
 		c.Fail("R3", "doSubscribe/handler-roles", p.Pos(doOb.Pos()), "OnNext is routed to handler "+sby+", which is not the one set by SubscribeOn: the subscriber is called on the wrong goroutine")
 		sby = ""
 	} else if len(obNames) > 0 && len(subNames) > 0 && by != "" && sby != "" {
 		c.Pass("R3", "doSubscribe/handler-roles", p.Pos(ds.Pos()), "effect → handler set by ObserveOn ("+by+"), OnNext → handler set by SubscribeOn ("+sby+")")
 	}
-	// the evaluation result is stored to the variable doSub reads
+	// the evaluation result is stored to the variable doSub reads: identify the cell in the frame that owns it
+	var storedCell ssa.Value
 	stored := ""
+	obInParent := &c11clo{ob.mc, nil}
 	core.Instrs(doOb, func(ins ssa.Instruction) {
 		if st, ok := ins.(*ssa.Store); ok {
 			if call, isC := core.Resolve(st.Val).(*ssa.Call); isC && core.Callee(&call.Call) == doEffect {
 				stored = core.Path(st.Addr)
+				storedCell = obInParent.outer(st.Addr)
 			}
 		}
 	})
@@ -446,8 +509,13 @@ func c11subscribe(c *core.Ctx, ds, doEffect *ssa.Function) {
 	}, nil)
 	argOK := false
 	core.Instrs(doSub, func(ins ssa.Instruction) {
-		if call, ok := ins.(*ssa.Call); ok && core.FieldKey(call.Call.Value) == "Subscription.OnNext" && len(call.Call.Args) == 1 && core.Path(call.Call.Args[0]) == stored {
-			argOK = true
+		if call, ok := ins.(*ssa.Call); ok && core.FieldKey(call.Call.Value) == "Subscription.OnNext" && len(call.Call.Args) == 1 {
+			// the argument is a read of the cell the evaluation was stored into
+			if ld, isLd := call.Call.Args[0].(*ssa.UnOp); isLd && ld.Op == token.MUL && storedCell != nil {
+				if sub.outer(ld.X) == storedCell {
+					argOK = true
+				}
+			}
 		}
 	})
 	c.Check(omin == 1 && omax == 1 && argOK, "R3", "doSubscribe/onnext", p.Pos(doSub.Pos()), "OnNext called exactly once with the evaluated value", fmt.Sprintf("OnNext is called %d..%d times or not with the evaluated value (argOK=%v)", omin, omax, argOK))
